@@ -360,6 +360,9 @@ cfgLoop:
 			cfg.UTCTimingMethods = sc.SplitUTCTimings(key, val)
 		case "snr": // Segment startNumber. -1 means default implicit number which ==  1
 			cfg.StartNr = sc.AtoiPtr(key, val)
+			if cfg.StartNr != nil && *cfg.StartNr == -1 {
+				cfg.StartNr = nil // no startNumber attribute, which means 1
+			}
 		case "ato": // availabilityTimeOffset
 			cfg.AvailabilityTimeOffsetS = sc.AtofInf(key, val)
 		case "ltgt": // latencyTargetMS
